@@ -6,6 +6,10 @@
 (* numbers taken from `cryptography` key objects) and what the real code returned (`got`).            *)
 (* Why_X names the first clause an event violates ("ok" if none): the action is enabled iff "ok"; the *)
 (* name is kept in a TLC register for the report.                                                     *)
+(* Construction histories (StartT .. ComputeT): the calls that build ONE table object are replayed on *)
+(* the spec's `tab`; every ComputeT event carries what the object hands out at that point (value,      *)
+(* table, fuse words, exported and re-parsed object) and is decided against the documented            *)
+(* construction over what `tab` holds then - the history itself is not consulted.                     *)
 EXTENDS Rot, Json, IOUtils
 Traces == ndJsonDeserialize(IOEnv.TRACE_FILE)
 NT == Len(Traces)
@@ -94,16 +98,62 @@ WhyParse1 == IF out.kind # "cb1" THEN "legal"
 TParse1 == Is("Parse1") /\ WhyParse1 = "ok" /\ Parse1 /\ Keep /\ Adv
 TSetImageLength == Is("SetImageLength") /\ SetImageLength(E.img) /\ Keep /\ Adv
 
+\* ---- construction histories of one table object.  The writes carry no observation (they return nothing); a write the real object
+\* REFUSES is logged as the event it was, with crash set - no action matches it.  ComputeT carries everything the object hands out:
+\*   got     the value (rkth / export_fuses / compute_srk_hash)            tbl    the table bytes the object holds / exports
+\*   fuses   the fuse words as the object lists them (v1 block, HAB)       parsed the value of parse(export()) of the object
+\*   f       the walk over the exported v1 block (layout, table inside the block, which slot the certificate points at)
+\* each of them must be the documented construction over what the slots hold NOW (tab), however they came to hold it
+Obs(o, want) == o.k = "val" /\ o.v = want
+HasFuses(fl) == fl \in {"cb1", "hab"}
+CanExport    == ~Whole(tab.fl) /\ (tab.fl # "cb1" \/ CertIndex(tab) > 0)   \* a v1 block is exported with the certificate of one of its keys
+\* a PFR page hands out the ROTKH FIELD: the value, zero padded to the width of the field
+TabValueOK   == IF Whole(tab.fl) THEN /\ E.fieldLen >= Len(E.want) /\ Len(E.got.v) = E.fieldLen /\ SubSeq(E.got.v, 1, Len(E.want)) = E.want
+                                      /\ \A i \in (Len(E.want) + 1)..E.fieldLen : E.got.v[i] = 0
+                ELSE E.got.v = E.want
+WhyStartT == IF ~InitOK(E.fl, E.origin, E.init, E.cert) THEN "legal"
+             ELSE IF E.image # StartImage(E.fl, E.origin, E.init) THEN "term"
+             ELSE IF "crash" \in DOMAIN E THEN "refused" ELSE "ok"
+TStartT == Is("StartT") /\ WhyStartT = "ok" /\ StartT(E.fl, E.origin, E.init, E.cert) /\ Keep /\ Adv
+WhyWrite == IF tab.fl = "none" THEN "legal"
+            ELSE IF "crash" \in DOMAIN E THEN "refused"              \* the builder refused (or lost) a write the API documents
+            ELSE "ok"
+TSetSlot == Is("SetSlot") /\ WhyWrite = "ok" /\ SetSlot(E.i, E.k, E.form) /\ Keep /\ Adv
+TAppendSlot == Is("AppendSlot") /\ WhyWrite = "ok" /\ AppendSlot(E.k, E.form) /\ Keep /\ Adv
+TClearT == Is("ClearT") /\ WhyWrite = "ok" /\ ClearT /\ Keep /\ Adv
+TAddCertificate == Is("AddCertificate") /\ WhyWrite = "ok" /\ AddCertificate(E.k) /\ Keep /\ Adv
+TSetAll == Is("SetAll") /\ WhyWrite = "ok" /\ SetAll(E.keys) /\ Keep /\ Adv
+WhyArgs == CASE E.a = "SetSlot" -> IF SetSlotOK(E.i, E.k, E.form) THEN "ok" ELSE "args"
+             [] E.a = "AppendSlot" -> IF AppendOK(E.k, E.form) THEN "ok" ELSE "args"
+             [] E.a = "ClearT" -> IF ClearOK THEN "ok" ELSE "args"
+             [] E.a = "AddCertificate" -> IF AddCertOK(E.k) THEN "ok" ELSE "args"
+             [] E.a = "SetAll" -> IF SetAllOK(E.keys) THEN "ok" ELSE "args"
+WhyComputeT == IF ~TabLegal(tab) \/ E.fl # tab.fl THEN "legal"
+               ELSE IF E.keys # TabKeys(tab) \/ E.term # TabTerm(tab) \/ E.table_term # TabTable(tab) \/ E.index # CertIndex(tab) THEN "term"
+               ELSE IF Len(E.want) # E.term.len \/ Len(E.table_want) # E.table_term.len THEN "term"
+               ELSE IF E.got.k # "val" THEN "returned"
+               ELSE IF ~TabValueOK THEN "value"
+               ELSE IF ~Whole(tab.fl) /\ ~Obs(E.tbl, E.table_want) THEN "table"
+               ELSE IF HasFuses(tab.fl) /\ ~Obs(E.fuses, E.want) THEN "fuses"
+               ELSE IF CanExport /\ ~Obs(E.parsed, E.want) THEN "parsed"
+               ELSE IF tab.fl = "cb1" /\ CanExport /\ ~Header1OK([build |-> 0, img |-> 0], E.f) THEN "layout"
+               ELSE IF tab.fl = "cb1" /\ CanExport /\ E.f.table # E.table_want THEN "export_table"
+               ELSE IF tab.fl = "cb1" /\ CanExport /\ E.f.rkh_index # CertIndex(tab) - 1 THEN "rkh_index" ELSE "ok"
+TComputeT == Is("ComputeT") /\ WhyComputeT = "ok" /\ ComputeT /\ Keep /\ Adv
+
 Why == IF l > Len(T) THEN "end"
        ELSE CASE E.a = "Compute" -> WhyCompute [] E.a = "ComputeFor" -> WhyComputeFor [] E.a = "ReadByPath" -> WhyRead
               [] E.a = "Build21" -> WhyBuild21 [] E.a = "Export21" -> WhyExport21 [] E.a = "Parse21" -> WhyParse21
               [] E.a = "Build1" -> WhyBuild1 [] E.a = "Export1" -> WhyExport1 [] E.a = "Parse1" -> WhyParse1
               [] E.a \in {"WriteFile", "SetUserData", "SetConstraints", "SetImageLength"} -> "args"
+              [] E.a = "StartT" -> WhyStartT [] E.a = "ComputeT" -> WhyComputeT
+              [] E.a \in {"SetSlot", "AppendSlot", "ClearT", "AddCertificate", "SetAll"} -> (IF WhyWrite # "ok" THEN WhyWrite ELSE WhyArgs)
               [] OTHER -> "no-such-action"
 TInit == /\ tid \in 1..NT /\ l = 1 /\ lastSha = "" /\ Init /\ TLCSet(tid, 1) /\ TLCSet(NT + tid, "start")
 TNext == \/ TCompute \/ TComputeFor \/ TWriteFile \/ TRead
          \/ TBuild21 \/ TExport21 \/ TParse21 \/ TSetUserData \/ TSetConstraints
          \/ TBuild1 \/ TExport1 \/ TParse1 \/ TSetImageLength
+         \/ TStartT \/ TSetSlot \/ TAppendSlot \/ TClearT \/ TAddCertificate \/ TSetAll \/ TComputeT
 Constr == (IF TLCGet(tid) <= l THEN TLCSet(tid, l) /\ TLCSet(NT + tid, Why) ELSE TRUE)
 Post == \A i \in 1..NT :
           \/ TLCGet(i) - 1 = Len(Traces[i].ev)
